@@ -429,6 +429,9 @@ func Run[C any](t *testing.T, p Prop[C]) *Rec {
 		c   C
 		msg string
 	}
+	if v, err := strconv.Atoi(os.Getenv("VERIF_CHECKS")); err == nil && v > 0 {
+		p.Checks = v // debugging aid: override the case count
+	}
 	_ = flag.Set("rapid.checks", strconv.Itoa(p.Checks))
 	_ = flag.Set("rapid.seed", strconv.FormatUint(rapidSeed(p.Sub), 10))
 	_ = flag.Set("rapid.nofailfile", "true")
